@@ -4,13 +4,14 @@
 -/
 import GoluaVerif.Proofs.C13Marshal
 import GoluaVerif.Proofs.C13Total
+import GoluaVerif.Proofs.C13Canon
 namespace GoluaVerif.Props.C13
 open GoluaVerif GoluaVerif.Model.Marshal
 
 /-- **load(string.dump(f)) reproduces the prototype**: for every well-formed constant tree (nested prototypes to any
     depth, constants of every kind, any opcode / line / upvalue-name vectors) the reader applied to the writer's
-    output returns the tree itself and consumes exactly the bytes written.  `wf` only says that every length fits
-    Go's allocator (≤ 2^48 bytes per vector). -/
+    output returns the tree itself and consumes exactly the bytes written.  `wf` only says that every length is
+    below 2^63 and that the upvalue / register / cell counts are not negative. -/
 theorem unmarshal_marshal (c : Const) (h : wf c) : unmarshal (marshal c) = .ok (c, []) := by
   have := unmarshal_marshal_append c [] h
   simpa using this
@@ -47,32 +48,61 @@ theorem marshal_deterministic (c1 c2 : Const) (h1 : wf c1) (h2 : wf c2) (h : mar
   injection e1 with e1 _
   exact e1.symm
 
-/-- **dumping the reloaded function yields the same bytes again** -/
-theorem marshal_unmarshal_image (c : Const) (h : wf c) :
-    ∃ c', unmarshal (marshal c) = .ok (c', []) ∧ marshal c' = marshal c :=
-  ⟨c, unmarshal_marshal c h, rfl⟩
+/-- **the reader accepts nothing but dumps**: whatever `unmarshal` accepts is byte for byte the writer's encoding of
+    what it returns, followed by the unread rest (so dumping the reloaded function yields the same bytes again),
+    and what it returns is well formed -/
+theorem marshal_unmarshal_image (bs : Bytes) (c : Const) (r : Bytes) (h : unmarshal bs = .ok (c, r)) :
+    marshal c ++ r = bs ∧ wf c := by
+  obtain ⟨e1, e2⟩ := unmarshal_canonical bs c r h
+  exact ⟨e1.symm, e2⟩
 
-/-- the reader accepts byte strings the writer never produces: a string cut short is padded with zeros
-    (`readString` ignores the count returned by `Read`), so re-dumping gives different bytes.
-    Witness replayed on the implementation (load of a dump with its last byte missing succeeds). -/
-theorem unmarshal_noncanonical_counterexample :
-    (match unmarshal [6, 0, 4, 4, 3, 0, 0, 0, 0, 0, 0, 0, 97] with
-     | .ok (c, _) => marshal c
-     | .error _ => []) = [6, 0, 4, 4, 3, 0, 0, 0, 0, 0, 0, 0, 97, 0, 0] := by decide
+/-- **every allocation request is bounded by the input**: a count read from a dump is handed to `make` only after
+    `checkCount` (`getSize` here, the only source of the counts used by `getWords`, `getConsts`, `getStrs` and of the
+    length used by `getStr`), and then `count × (bytes each item takes on the wire) ≤ bytes left` -/
+theorem unmarshal_alloc_bounded (item : Nat) (bs : Bytes) (n : Nat) (r : Bytes)
+    (h : getSize item bs = .ok (n, r)) : n * item ≤ r.length ∧ r.length ≤ bs.length := by
+  obtain ⟨_, _, h3⟩ := getSize_inv h
+  refine ⟨?_, getSize_len h⟩
+  cases item with
+  | zero => simp
+  | succ k => exact (Nat.le_div_iff_mul_le (by omega)).mp h3
 
-/-- **`UnmarshalConst` is total**: for ANY byte string the reader (every read of which is length-checked, every
-    `make` of which is guarded: a Go panic is the value `recoveredPanic`) returns either a constant together with a
-    strictly shorter unread rest, or one of the errors eof / badType / badPrefix / recoveredPanic / hugeAlloc.
+/-- regression (was a defect): the 31-byte chunk that announced 2^40 opcodes is refused -/
+example : ∃ e, load ([6, 0, 4, 5] ++ [2, 0, 0, 0, 0, 0, 0, 0, 61, 120] ++ [1, 0, 0, 0, 0, 0, 0, 0, 102] ++
+    [0, 0, 0, 0, 0, 1, 0, 0]) = .error e := ⟨.eof, by rfl⟩
+
+/-- **a truncated dump is rejected**: every strict prefix of a dump is an error -/
+theorem unmarshal_rejects_truncated (c : Const) (h : wf c) (k : Nat) (hk : k < (marshal c).length) :
+    ∃ e, unmarshal ((marshal c).take k) = .error e := by
+  cases hu : unmarshal ((marshal c).take k) with
+  | error e => exact ⟨e, rfl⟩
+  | ok p =>
+    obtain ⟨c', r'⟩ := p
+    obtain ⟨e1, e2⟩ := unmarshal_canonical _ _ _ hu
+    have hsplit : marshal c = marshal c' ++ (r' ++ (marshal c).drop k) := by
+      rw [← List.append_assoc, ← e1, List.take_append_drop]
+    have h1 := unmarshal_marshal c h
+    rw [hsplit, unmarshal_marshal_append c' _ e2] at h1
+    injection h1 with h1
+    injection h1 with _ h1
+    have hd : (marshal c).drop k = [] := by
+      cases hr : r' with
+      | nil => rw [hr] at h1; simpa using h1
+      | cons a t => rw [hr] at h1; simp at h1
+    have : (marshal c).length ≤ k := by
+      have := congrArg List.length hd
+      simp at this
+      omega
+    omega
+
+/-- regression (was a defect): a string cut short is an error, not a zero-padded string -/
+example : unmarshal [6, 0, 4, 4, 3, 0, 0, 0, 0, 0, 0, 0, 97] = .error .eof := by rfl
+
+/-- **`UnmarshalConst` is total**: for ANY byte string the reader returns either a constant together with a
+    strictly shorter unread rest, or one of the errors eof / badType / badPrefix / badSize.
     In particular the nesting fuel `2·|input|+2` that `unmarshal` supplies is never exhausted. -/
 theorem unmarshal_total (bs : Bytes) :
     unmarshal bs ≠ .error .fuel ∧ ∀ c r, unmarshal bs = .ok (c, r) → r.length < bs.length :=
   ⟨unmarshal_nofuel bs, unmarshal_consumes bs⟩
-
-/-- `make([]code.Opcode, sz)` is requested with `sz` read from the input before anything else is checked: a 31-byte
-    chunk asks for 2^40 opcodes (4 TiB).  So "allocation requests are bounded by the input length" is FALSE of the
-    current code.  Witness replayed on the implementation (it kills the process). -/
-theorem unmarshal_alloc_unbounded_counterexample :
-    firstCodeAlloc ([6, 0, 4, 5] ++ [2, 0, 0, 0, 0, 0, 0, 0, 61, 120] ++ [1, 0, 0, 0, 0, 0, 0, 0, 102] ++
-      [0, 0, 0, 0, 0, 1, 0, 0]) = some (2 ^ 40) := by decide
 
 end GoluaVerif.Props.C13
